@@ -487,6 +487,13 @@ def report(run, mod):
 
 
 def main(argv):
+    # reports quote generated inputs: lone surrogates and the like must not
+    # turn a violation into a harness error
+    for stream in (sys.stdout, sys.stderr):
+        try:
+            stream.reconfigure(errors='backslashreplace')
+        except Exception:   # noqa
+            pass
     if len(argv) >= 2 and argv[0] == '--selftest':
         from vf import selftest
         return selftest.main(argv[1:])
